@@ -192,13 +192,35 @@ class MWFamily : public IAlgoFamily {
         std::vector<E> v;
         for (auto &t : c.at("s"))
             v.push_back(E(t[0].get<unsigned>(), t[1].get<unsigned>(), (A)t[2].get<int>()));
+        // relative oracle (see algo_labeled.hpp): equal to adding the edges one at a time
+        auto one = [&](auto tag, auto &&cont, const json &want, const char *what) {
+            using GT = typename decltype(tag)::type;
+            GT built(cont);
+            size_t n = 0;
+            for (auto &e : cont)
+                n = std::max<size_t>(n, 1 + std::max(std::get<0>(e), std::get<1>(e)));
+            GT oneAtATime(n);
+            for (auto &e : cont) {
+                if constexpr (std::is_same<A, EdgeMultiplicity>::value)
+                    oneAtATime.addMultiedge(std::get<0>(e), std::get<1>(e), std::get<2>(e));
+                else
+                    oneAtATime.addEdge(std::get<0>(e), std::get<1>(e), std::get<2>(e));
+            }
+            if (built.getSize() != n)
+                r.fail(GInfo<GT>::name() + " constructor from " + what + ": " + std::to_string(built.getSize()) +
+                       " vertices instead of " + std::to_string(n));
+            else if (!(built == oneAtATime) || built != oneAtATime || encOf(built) != encOf(oneAtATime))
+                r.fail(GInfo<GT>::name() + " constructor from " + what + " differs from adding the edges one at a time: " +
+                       diffNote(encOf(oneAtATime), encOf(built)));
+            else if (encOf(built) != want)
+                r.diagnostics.push_back("constructor result differs from the specification's");
+        };
+        struct TD { using type = DGT; };
+        struct TU { using type = UGT; };
         auto both = [&](auto &&cont, const char *what) {
-            DGT d(cont);
-            UGT u(cont);
-            if (encOf(d) != c.at("outD"))
-                r.fail(std::string("directed constructor from ") + what + ": " + diffNote(c.at("outD"), encOf(d)));
-            else if (encOf(u) != c.at("outU"))
-                r.fail(std::string("undirected constructor from ") + what + ": " + diffNote(c.at("outU"), encOf(u)));
+            one(TD{}, cont, c.at("outD"), what);
+            if (r.ok)
+                one(TU{}, cont, c.at("outU"), what);
         };
         both(v, "std::vector");
         both(std::list<E>(v.begin(), v.end()), "std::list");
@@ -223,6 +245,8 @@ class MWFamily : public IAlgoFamily {
     }
     template <class W> void dijkstraScaled(const json &c, unsigned order, double unitW, CaseResult &r) {
         W g0 = buildFromEnc<W>(c.at("g"), order);
+        if (!inputAsSpecified(g0, c.at("g"), r))
+            return;
         if (unitW != 1.0) {
             std::vector<std::tuple<VertexIndex, VertexIndex, double>> es;
             for (auto e : g0.edges())
